@@ -2,6 +2,8 @@
 import Barril.Model.Proto
 import Barril.Model.RegCache
 import Barril.Model.RegTable
+import Barril.Model.StrRender
+import Barril.Model.Ctor
 import Barril.Gen.Dbs
 open Lean Barril Barril.Proto Barril.Reg
 
@@ -81,6 +83,17 @@ def parseRegOp (j : Json) : Except String RegOp := do
       maxExcl := ← getBool j "maxx", caption := ← getSym j "cap", fromCat := ← getOptSym j "from" })
   | _ => throw s!"unknown registration kind {k}"
 
+def jEnt (v : Json) : Except String (Sym × Sym × Int) :=
+  match v with
+  | .arr #[c, u, .str e] => do
+    match e.toInt? with
+    | some n => pure (← jSym c, ← jSym u, n)
+    | none => throw "exponent expected"
+  | _ => throw "entry [category, unit, exponent] expected"
+
+def getEnts (j : Json) : Except String (List (Sym × Sym × Int)) := do
+  (← getArr j "ents").toList.mapM jEnt
+
 def parseQuery (j : Json) : Except String Query := do
   let q ← getStr j "q"
   match q with
@@ -100,6 +113,11 @@ def parseQuery (j : Json) : Except String Query := do
   | "defaultCategory" => pure (.defaultCategory (← getSym j "u"))
   | "quantityType" => pure (.quantityType (← getSym j "u"))
   | "catInfo" => pure (.catInfo (← getSym j "c"))
+  | "mul" | "div" =>
+    pure (.prod (if q == "mul" then .mul else .div) (← getSym j "c1") (← getSym j "u1") (← getSym j "c2")
+      (← getSym j "u2") (← getRat j "x") (← getRat j "y"))
+  | "derived" => pure (.derived (← getEnts j))
+  | "createDerived" => pure (.createDerived (← getEnts j))
   | _ => throw s!"unknown query {q}"
 
 def parseCOp (j : Json) : Except String COp := do
@@ -153,7 +171,18 @@ def qMag (r : Registry) : Query → Rat
   | .add _ _ c2 u2 x y =>
     let qt := match catGet r.cats c2 with | some ci => ci.qtype | none => c2
     maxR (absR x) (convMag r qt u2 u2 y)
+  | .prod _ _ _ c2 u2 x y =>
+    let qt := match catGet r.cats c2 with | some ci => ci.qtype | none => c2
+    maxR (absR x) (convMag r qt u2 u2 y)
   | _ => 0
+
+/-- a derived (or simple) quantity: composing map, and the strings `GetUnit()`, `GetCategory()`,
+`GetQuantityType()` rendered by the string engine (`Barril/Model/StrRender.lean`) -/
+def descFields (d : DObj) : List (String × Json) :=
+  [("ents", Json.arr (d.entries.map (fun e => Json.arr #[symJ e.1, symJ e.2.1, .str (toString e.2.2)])).toArray),
+   ("unit", symJ (Sym.ofBytes (Barril.Str.renderUnit (Barril.Str.joinExps (d.entries.map (fun e => (Sym.bytes e.2.1, e.2.2))))))),
+   ("category", symJ (Sym.ofBytes (Barril.Str.makeStr (d.entries.map (fun e => (Sym.bytes e.1, e.2.2)))))),
+   ("qtype", symJ (Sym.ofBytes (Barril.Str.makeStr (d.qtypes.map (fun e => (Sym.bytes e.1, e.2))))))]
 
 def ansJ (r : Registry) (q : Query) : Except ErrKind Ans → Json
   | .error e => errJ e
@@ -176,6 +205,9 @@ def ansJ (r : Registry) (q : Query) : Except ErrKind Ans → Json
       | _ => .null
     Json.mkObj [("ok", Json.mkObj [("b", .bool b), ("y", y)])]
   | .ok (.cat ci) => Json.mkObj [("ok", Json.mkObj [("ci", catJ ci)])]
+  | .ok (.desc d) => Json.mkObj [("ok", Json.mkObj (descFields d))]
+  | .ok (.descValue d x) =>
+    Json.mkObj [("ok", Json.mkObj (descFields d ++ [("x", ratJ x), ("M", ratJ (maxR (qMag r q) (absR x)))]))]
 
 def coutJ (r : Registry) (op : COp) : Except ErrKind COut → Json
   | .error e => errJ e
@@ -222,10 +254,16 @@ def handle (j : Json) : Except String Json := do
   | "chist" =>
     let ops ← (← getArr j "ops").toList.mapM parseCOp
     let (s, outs) := runC (CState.fresh Registry.empty) ops
-    pure (Json.mkObj [("outs", Json.arr outs.toArray), ("memo", memoJ s.memo), ("cache", cacheJ s.cache)])
+    pure (Json.mkObj [("outs", Json.arr outs.toArray), ("memo", memoJ s.memo), ("cache", cacheJ s.cache),
+      ("dcache", Json.arr (s.dcache.map (fun e => Json.arr (e.1.map (fun t =>
+        Json.arr #[symJ t.1, symJ t.2.1, .str (toString t.2.2)])).toArray)).toArray)])
   | "shipped" =>
+    -- `defcat`: every unit that resolves to a default category resolves to a registered category of its own
+    -- quantity type (so `Scalar(value, unit)` builds); all units do in the databases filled with categories
     let one := fun (db : Db) => Json.mkObj [("ok", .bool db.regOk), ("units", .num db.units.length),
-      ("cats", .num db.cats.length)]
+      ("cats", .num db.cats.length),
+      ("defcat", .bool (db.units.all (fun r => (Barril.Ctor.rowDefaultCategory db r).isNone || r.defaultCatOk db))),
+      ("nodefcat", .num (db.units.filter (fun r => (Barril.Ctor.rowDefaultCategory db r).isNone)).length)]
     pure (Json.mkObj [("posc", one Gen.poscDb), ("nocat", one Gen.nocatDb), ("simple", one Gen.simpleDb)])
   | _ => throw s!"unknown op {op}"
 
